@@ -7,8 +7,8 @@
 package commit
 
 import (
-	"reflect"
 	"io"
+	"reflect"
 	"unsafe"
 
 	"github.com/kelindar/iostream"
@@ -60,9 +60,9 @@ func vNondet[T any]() (v T) { return }
 func vImplies(a, b bool) bool { return !a || b }
 
 // vInvariant, vBody and vStep structure loop contracts (see DESIGN 2.4).
-func vInvariant(c bool)           { vAssume(c) }
-func vBody()                      {}
-func vStep(label string, c bool)  { vAssert(label, c) }
+func vInvariant(c bool)          { vAssume(c) }
+func vBody()                     {}
+func vStep(label string, c bool) { vAssert(label, c) }
 
 // VBuffer builds a buffer in an arbitrary state (bytes written so far, last offset, current block) for contracts of
 // other packages. Exists only under the verif tag.
@@ -116,6 +116,10 @@ func vModelReadUvarint(r *iostream.Reader) (uint64, error) {
 		return 0, vReadErr
 	}
 	v := vNondet[uint64]()
+	if vLinked {
+		v = uint64(vTokRangeN)
+		vReadTok(3)
+	}
 	if 0 <= vUvarintN && vUvarintN < 4 {
 		vUvarints[vUvarintN] = v
 	}
@@ -148,6 +152,10 @@ func vModelReadInt32(r *iostream.Reader) (int32, error) {
 	if !vReadStep() {
 		return 0, vReadErr
 	}
+	if vLinked {
+		vReadTok(2)
+		return vTokInt32, nil
+	}
 	return vNondet[int32](), nil
 }
 
@@ -156,6 +164,10 @@ func vModelReadString(r *iostream.Reader) (string, error) {
 	if !vReadStep() {
 		return "", vReadErr
 	}
+	if vLinked {
+		vReadTok(1)
+		return vTokStr, nil
+	}
 	return vNondet[string](), nil
 }
 
@@ -163,6 +175,10 @@ func vModelReadString(r *iostream.Reader) (string, error) {
 func vModelReadBytes(r *iostream.Reader) ([]byte, error) {
 	if !vReadStep() {
 		return nil, vReadErr
+	}
+	if vLinked {
+		vReadTok(4)
+		return vTokBytes, nil
 	}
 	return vNondet[[]byte](), nil
 }
@@ -197,7 +213,7 @@ var (
 
 // Exported views of the stream ghost state for contracts of other packages.
 func VReadFailed() bool      { return vReadFailed }
-func VResetStream(err error) { vReadFailed, vReadErr, vUvarintN = false, err, 0 }
+func VResetStream(err error) { vReadFailed, vReadErr, vUvarintN, vLinked = false, err, 0, false }
 func VReadErr() error        { return vReadErr }
 
 //@ model io.ReadFull global
@@ -206,7 +222,121 @@ func vModelReadFull(r io.Reader, buf []byte) (int, error) {
 		return 0, vReadErr
 	}
 	vHavocRange(buf)
+	if vLinked {
+		if vReadFulls == vTokK && vTokElemSet && len(buf) == 12 {
+			buf[0], buf[1], buf[2], buf[3] = vTokElem[0], vTokElem[1], vTokElem[2], vTokElem[3]
+			buf[4], buf[5], buf[6], buf[7] = vTokElem[4], vTokElem[5], vTokElem[6], vTokElem[7]
+			buf[8], buf[9], buf[10], buf[11] = vTokElem[8], vTokElem[9], vTokElem[10], vTokElem[11]
+		}
+		vAssume(vReadFulls < 1<<40) // (a counter)
+		vReadFulls++
+	}
 	return len(buf), nil
+}
+
+// ---------------------------------------------------------------------------------------------
+// iostream.Writer as seen by Buffer.WriteTo: a positional ghost log of the tokens written - string, int32, a range
+// (its length and, for ONE arbitrary element vTokK, the bytes its delegate wrote), bytes - with sticky failure. When
+// vLinked is set the reader models above hand back exactly these tokens, position by position (C05: what ReadFrom
+// reads is what WriteTo wrote); a read that asks for another kind of token than the one written at its position is
+// recorded in vTokKindBad. With vLinked unset (every other lemma) the reader models yield arbitrary tokens.
+var (
+	vLinked     bool
+	vTokKinds   [4]uint8 // 1 string, 2 int32, 3 range, 4 bytes
+	vTokN       int      // tokens written
+	vTokStr     string
+	vTokInt32   int32
+	vTokRangeN  int
+	vTokBytes   []byte
+	vTokK       int
+	vTokElem    [12]byte
+	vTokElemSet bool
+	vTokFail    bool // a write has failed
+	vTokErr     error
+	vTokRead    int // tokens read
+	vTokKindBad bool
+	vReadFulls  int
+)
+
+func vWriteTok(kind uint8) error {
+	if vTokFail || vNondet[bool]() {
+		vTokFail = true
+		return vTokErr
+	}
+	if 0 <= vTokN && vTokN < 4 {
+		vTokKinds[vTokN] = kind
+	}
+	vAssume(vTokN < 1<<40) // (a counter)
+	vTokN++
+	return nil
+}
+
+func vReadTok(kind uint8) {
+	if !(0 <= vTokRead && vTokRead < 4 && vTokRead < vTokN && vTokKinds[vTokRead] == kind) {
+		vTokKindBad = true
+	}
+	vAssume(vTokRead < 1<<40) // (a counter)
+	vTokRead++
+}
+
+//@ model iostream.NewWriter
+func vModelNewWriter(dst io.Writer) *iostream.Writer { return new(iostream.Writer) }
+
+//@ model iostream.(*Writer).Offset
+func vModelWriterOffset(w *iostream.Writer) int64 { return vNondet[int64]() }
+
+//@ model iostream.(*Writer).WriteString
+func vModelWriteString(w *iostream.Writer, v string) error {
+	if err := vWriteTok(1); err != nil {
+		return err
+	}
+	vTokStr = v
+	return nil
+}
+
+//@ model iostream.(*Writer).WriteInt32
+func vModelWriteInt32(w *iostream.Writer, v int32) error {
+	if err := vWriteTok(2); err != nil {
+		return err
+	}
+	vTokInt32 = v
+	return nil
+}
+
+//@ model iostream.(*Writer).WriteBytes
+func vModelWriteBytes(w *iostream.Writer, v []byte) error {
+	if err := vWriteTok(4); err != nil {
+		return err
+	}
+	vTokBytes = v
+	return nil
+}
+
+//@ model iostream.(*Writer).WriteRange
+func vModelWriteRange(w *iostream.Writer, length int, fn func(i int, w *iostream.Writer) error) error {
+	if err := vWriteTok(3); err != nil {
+		return err
+	}
+	vTokRangeN = length
+	if 0 <= vTokK && vTokK < length {
+		return fn(vTokK, w)
+	}
+	return nil
+}
+
+//@ model iostream.(*Writer).Write
+func vModelWriterWrite(w *iostream.Writer, p []byte) (int, error) {
+	if vTokFail || vNondet[bool]() {
+		vTokFail = true
+		return 0, vTokErr
+	}
+	if len(p) == 12 {
+		vTokElem[0], vTokElem[1], vTokElem[2], vTokElem[3] = p[0], p[1], p[2], p[3]
+		vTokElem[4], vTokElem[5], vTokElem[6], vTokElem[7] = p[4], p[5], p[6], p[7]
+		vTokElem[8], vTokElem[9], vTokElem[10], vTokElem[11] = p[8], p[9], p[10], p[11]
+		vTokElemSet = true
+	}
+	return len(p), nil
 }
 
 // vHavocRange: the elements of the slice take unknown values (verifier intrinsic).
